@@ -38,8 +38,13 @@ func Pattern(l, idx int) string {
 
 // Strings returns all strings of length 0..maxLen over the distinct runes of
 // pat plus 'a' (plus the upper-case variants of letters when fold is set),
-// alphabet capped at maxAlpha runes (first occurrences win). The empty string is first.
-func Strings(pat string, maxLen, maxAlpha int, fold bool) []string {
+// alphabet capped at maxAlpha runes (extra runes first, then first occurrences). The empty string is first.
+func Strings(pat string, maxLen, maxAlpha int, fold bool, extra ...rune) []string {
+	return StringsOver(Alpha(pat, maxAlpha, fold, extra...), maxLen)
+}
+
+// Alpha is the test alphabet for a pattern (see Strings).
+func Alpha(pat string, maxAlpha int, fold bool, extra ...rune) []rune {
 	seen := map[rune]bool{}
 	var alpha []rune
 	add := func(r rune) {
@@ -47,6 +52,9 @@ func Strings(pat string, maxLen, maxAlpha int, fold bool) []string {
 			seen[r] = true
 			alpha = append(alpha, r)
 		}
+	}
+	for _, r := range extra {
+		add(r)
 	}
 	for _, r := range pat {
 		add(r)
@@ -61,6 +69,13 @@ func Strings(pat string, maxLen, maxAlpha int, fold bool) []string {
 	if fold {
 		add('A')
 	}
+	return alpha
+}
+
+// StringsOver enumerates all strings of length 0..maxLen over alpha: "" first, then
+// by length, each level = previous level extended by every rune (the Coq side,
+// CaseEval.strings_upto, enumerates in the same order).
+func StringsOver(alpha []rune, maxLen int) []string {
 	out := []string{""}
 	prev := []string{""}
 	for l := 1; l <= maxLen; l++ {
@@ -163,4 +178,66 @@ func SortedKeys[V any](m map[string]V) []string {
 	}
 	sort.Strings(ks)
 	return ks
+}
+
+// Runes converts a string to its rune values (valid UTF-8 expected).
+func Runes(s string) []int {
+	out := []int{}
+	for _, r := range s {
+		out = append(out, int(r))
+	}
+	return out
+}
+
+// RuneIndex converts a byte offset in s to a rune index.
+func RuneIndex(s string, off int) int {
+	if off > len(s) {
+		off = len(s)
+	}
+	return len([]rune(s[:off]))
+}
+
+// CodeObs is what the code leg compares with the model: the outcome of
+// pattern.Regexp (+ regexp.Compile) in rune terms.
+type CodeObs struct {
+	K      string  `json:"k"`              // ok | nocompile | eb | er | ec | neg | panic | other
+	Text   []int   `json:"text,omitempty"` // runes of the regexp text
+	RA, RB int     `json:"ra,omitempty"`
+	Groups [][]int `json:"groups,omitempty"`
+	Msg    string  `json:"msg,omitempty"`
+}
+
+func ObserveRegexp(pat string, mode pattern.Mode) (CodeObs, *regexp.Regexp) {
+	var text string
+	var err error
+	if p, msg := hx.Try(func() { text, err = pattern.Regexp(pat, mode) }); p {
+		return CodeObs{K: "panic", Msg: msg}, nil
+	}
+	if err != nil {
+		msg := err.Error()
+		if ne, ok := err.(*pattern.NegExtGlobError); ok {
+			o := CodeObs{K: "neg"}
+			for _, g := range ne.Groups {
+				o.Groups = append(o.Groups, []int{RuneIndex(pat, g.Start), RuneIndex(pat, g.End)})
+			}
+			return o, nil
+		}
+		switch {
+		case msg == `\ at end of pattern`:
+			return CodeObs{K: "eb"}, nil
+		case msg == "charClass invalid":
+			return CodeObs{K: "ec"}, nil
+		case strings.HasPrefix(msg, "invalid range: "):
+			rs := []rune(strings.TrimPrefix(msg, "invalid range: "))
+			if len(rs) == 3 && rs[1] == '-' {
+				return CodeObs{K: "er", RA: int(rs[0]), RB: int(rs[2])}, nil
+			}
+		}
+		return CodeObs{K: "other", Msg: msg}, nil
+	}
+	rx, cerr := regexp.Compile(text)
+	if cerr != nil {
+		return CodeObs{K: "nocompile", Text: Runes(text), Msg: cerr.Error()}, nil
+	}
+	return CodeObs{K: "ok", Text: Runes(text)}, rx
 }
